@@ -717,6 +717,10 @@ func poolSafety(tier string) (p pool) {
 		)
 		p.bfs = append(p.bfs, split(bfsReplicate(f, 2)))
 	}
+	{
+		ss := tickSnap(ddScn("stale-self-ack", 3, ids(3), asyncF, scriptStaleSelfAck(), k, int(BDrop), 1, int(BDup), 1, int(BCrash), 1))
+		p.dd = append(p.dd, ss)
+	}
 	// proposals at followers with forwarding disabled (refused, never appended)
 	for _, f := range []feat{{nofwd: true}, {nofwd: true, async: true}} {
 		p.dd = append(p.dd, ddScn("no-forwarding", 3, ids(3), f,
@@ -739,6 +743,16 @@ func poolSafety(tier string) (p pool) {
 		p.dd = append(p.dd, sb)
 	}
 	return
+}
+
+// scriptStaleSelfAck: node 1 leads term 1 with a stalled append thread and appends three
+// entries nobody else sees; node 2 leads term 2 and overwrites that tail with a shorter one; node 1
+// is elected again for term 3 on two remote votes (its own vote waits for the disk) and appends its
+// empty entry; node 3 goes quiet; only then does node 1's append thread perform the oldest write
+// and release the self-acknowledgement that was attached to it in term 1.
+func scriptStaleSelfAck() []Event {
+	return seq(camp(1), pauseAppend(1, 1), isolate(1), prop(1), prop(1), prop(1), camp(2), prop(2), heal(), tick(2), holdFrom(3), camp(1), deliverHeld(3, 1),
+		appendStep(1), prop(1), appendStep(1), appendStep(1), pauseAppend(1, 0), flush(), tick(1), prop(1))
 }
 
 func scriptStaleBatchN(steps int) []Event {
